@@ -17,7 +17,22 @@ def _regen_filedefs(ctx):
     return True
 
 
-REGEN = {'filedefs': _regen_filedefs}
+def _regen_listenerfacts(ctx):
+    """does buffer size 0 deadlock on this tree? → Generated/ListenerFacts.lean (read by the driver only)"""
+    import framework as F
+    out = os.path.join(F.LEAN, 'FitModel', 'Generated', 'ListenerFacts.lean')
+    try:
+        ans = F.run_harness_exec(['listenerprobe ' + out], timeout=300)[0]
+    except Exception as e:  # noqa
+        ans = f'error {e!r}'
+    if not ans.startswith('ok '):
+        ctx.fail('tool', 'listener probe failed (' + ans[:300] + ')')
+        return False
+    ctx.cov.setdefault('extra', {})['listener_probe'] = ans
+    return True
+
+
+REGEN = {'filedefs': _regen_filedefs, 'listenerfacts': _regen_listenerfacts}
 
 
 def _extra(ctx, spec):
@@ -53,7 +68,7 @@ def _race_extra(ctx, spec):
 
 PROP = dict(
     level='proof',
-    regen=['filedefs'],
+    regen=['filedefs', 'listenerfacts'],
     theorems=['Fit.C14.C14_tables_ok', 'Fit.C14.C14_build_keeps_last', 'Fit.C14.C14_conservation',
               'Fit.C14.C14_conservation_no_file_id', 'Fit.C14.C14_prefix_order', 'Fit.C14.C14_sort_stable',
               'Fit.C14.C14_sort_unique', 'Fit.C14.C14_timestampless_first', 'Fit.C14.C14_sorted_stable_partial',
